@@ -15,6 +15,9 @@
      fixD  `throw e` records may_throw whatever `e` is (the Rust relies on visit_expr,
            which does not record it for an identifier / `this`: `try { throw e } catch {}`
            then looks like a try block that cannot throw);
+     fixF  the test of `while` is visited before the loop scope, the test of `do-while` in the state the scope
+           had before the loop (the Rust visited both AFTER the loop, when an infinite loop has already ended
+           the scope, and so lost the fact that a constant-true test can throw: `while (f() || true) {}`);
      fixE  the head (`left`) of a for-in / for-of statement is visited (the Rust visited only `right`
            and the body, so a function-like in a default value of the loop's binding pattern had no
            entries in the result and getter-return's `.meta(..).unwrap()` panicked).
@@ -41,11 +44,11 @@ Definition forced_return := Forced true false false.
 Definition forced_throw := Forced false true false.
 Definition forced_inf := Forced false false true.
 
-Record fixes := { fixA : bool; fixB : bool; fixC : bool; fixD : bool; fixE : bool }.
-Definition faithful := {| fixA := false; fixB := false; fixC := false; fixD := false; fixE := false |}.
-Definition repaired := {| fixA := true; fixB := true; fixC := true; fixD := true; fixE := true |}.
-(* the code as it is after the `fix:` commits for A, B, D and E (class C is a known finding) *)
-Definition current := {| fixA := true; fixB := true; fixC := false; fixD := true; fixE := true |}.
+Record fixes := { fixA : bool; fixB : bool; fixC : bool; fixD : bool; fixE : bool; fixF : bool }.
+Definition faithful := {| fixA := false; fixB := false; fixC := false; fixD := false; fixE := false; fixF := false |}.
+Definition repaired := {| fixA := true; fixB := true; fixC := true; fixD := true; fixE := true; fixF := true |}.
+(* the code as it is after the `fix:` commits for A, B, D, E and F (class C is a known finding) *)
+Definition current := {| fixA := true; fixB := true; fixC := false; fixD := true; fixE := true; fixF := true |}.
 
 Record scope := {
   s_end : option End;              (* Scope::end *)
@@ -119,8 +122,13 @@ Definition visit_e (e : expr) (x : st) : st :=
 (* the test of a switch case (fn visit_switch_case, first line): visited in the scope of the switch *)
 Definition visit_test (t : option expr) (x : st) : st := match t with Some e => visit_e e x | None => x end.
 Definition visit_cond (c : cond) (x : st) : st :=
-  match c with COpaque e => visit_e e x | CTrue | CFalse => visit_lit x end.
-Definition known_true (c : cond) : bool := match c with CTrue => true | _ => false end.
+  match c with
+  | COpaque e => visit_e e x
+  | CSeq e _ => visit_lit (visit_e e x)
+  | CTrue | CFalse | CUnkTrue => visit_lit x
+  end.
+(* `matches!(test.cast_to_bool(ctx), (_, Value::Known(true)))` *)
+Definition known_true (c : cond) : bool := match c with CTrue | CSeq _ true => true | _ => false end.
 
 Inductive kind := KFunction | KCase | KIf | KLoop | KLabel (l : N) | KCatch | KFinally.
 
@@ -344,16 +352,21 @@ Definition visit_if_else (p : N) (c : cond) (p1 : N) (op1 : st -> st) (p2 : N) (
   if_else_end p cons_reason alt_reason x.
 
 Definition visit_while (c : cond) (body_lo : N) (body : st -> st) (x : st) : st :=
-  visit_cond c (with_child KLoop body_lo (fun a => while_post c body_lo (body a)) x).
+  if fixF fx then with_child KLoop body_lo (fun a => while_post c body_lo (body a)) (visit_cond c x)
+  else visit_cond c (with_child KLoop body_lo (fun a => while_post c body_lo (body a)) x).
 
-Definition dowhile_tail (r : option End) (p : N) (c : cond) (x : st) : st :=
-  visit_cond c (match r with
-                | Some e => if is_forced e then mark_as_end p e x else x
-                | None => x
-                end).
+(* the test of a do-while: (fixF) visited with the scope's end as it was before the loop, then put back *)
+Definition dowhile_test (prev_end : option End) (c : cond) (x : st) : st :=
+  if fixF fx then set_end (visit_cond c (set_end x prev_end)) (s_end (sc x)) else visit_cond c x.
+Definition dowhile_tail (prev_end : option End) (r : option End) (p : N) (c : cond) (x : st) : st :=
+  dowhile_test prev_end c (match r with
+                           | Some e => if is_forced e then mark_as_end p e x else x
+                           | None => x
+                           end).
 Definition visit_do_while (p : N) (c : cond) (body_lo : N) (body : st -> st) (x : st) : st :=
+  let prev_end := s_end (sc x) in
   let x := with_child KLoop body_lo (fun a => dowhile_post c body_lo (body a)) x in
-  dowhile_tail (get_end_reason x body_lo) p c x.
+  dowhile_tail prev_end (get_end_reason x body_lo) p c x.
 
 Definition visit_for (p : N) (c : option cond) (body_lo : N) (body : st -> st) (x : st) : st :=
   let x := match c with Some c => visit_cond c x | None => x end in
